@@ -48,18 +48,25 @@ def bodies(rng):
 FOLLOWUPS = [("a.ics", "a1", "conditional-put-of-a-with-its-etag-from-before-the-race"), ("f.ics", "f", "put-new-name-with-uid-of-a"), ("g.ics", "g", "put-another-new-name-with-uid-of-a"), ("e.ics", "e", "put-new-name-with-uid-of-c")]
 
 
-def run_followups(getters, B, shift=0):
+# two orders of issuing them: with the conditional put first every participating store object looks at the collection
+# again before the UID puts; with the UID puts first one of them is issued by a store object that has not looked since
+FOLLOW_ORDERS = [(0, 1, 2, 3), (1, 2, 0, 3)]
+
+
+def run_followups(getters, B, shift=0, variant=0):
     """`shift` rotates which of the participating store objects issues which follow-up (with one store
-    object per thread the two have seen different parts of the history)"""
-    out = []
-    for k, (name, b, _) in enumerate(FOLLOWUPS):
+    object per thread the two have seen different parts of the history); `variant` picks the order.  The answers
+    are returned in the order of FOLLOWUPS."""
+    out = [None] * len(FOLLOWUPS)
+    for pos, k in enumerate(FOLLOW_ORDERS[variant]):
+        name, b, _ = FOLLOWUPS[k]
         try:
-            st = getters[(k + shift) % len(getters)]()
+            st = getters[(pos + shift) % len(getters)]()
             kw = {"replace_etag": B["__e0"]} if name == "a.ics" else {}
             r = ("value", ("ok", st.import_one(name, "text/calendar", [B[b]], **kw)[1]))
         except Exception as e:  # noqa
             r = ("exc", e)
-        out.append(outcome(r)[0])
+        out[k] = outcome(r)[0]
     return tuple(out)
 
 
@@ -165,19 +172,21 @@ class Scenario:
 
     def run_sequential(self, order):
         """order: tuple of op indices"""
-        self.fresh()
-        res = {}
-        for i in order:
+        follow = []
+        for variant in range(len(FOLLOW_ORDERS)):
+            self.fresh()
+            res = {}
+            for i in order:
+                st = storedrv.open_store(self.backend, self.work)
+                op = make_op(self.ops[i], lambda st=st: st, self.B, self.e0)
+                try:
+                    res[i] = ("value", op())
+                except Exception as e:
+                    res[i] = ("exc", e)
+            fin, dup = final_state(self.backend, self.work)
             st = storedrv.open_store(self.backend, self.work)
-            op = make_op(self.ops[i], lambda st=st: st, self.B, self.e0)
-            try:
-                res[i] = ("value", op())
-            except Exception as e:
-                res[i] = ("exc", e)
-        fin, dup = final_state(self.backend, self.work)
-        st = storedrv.open_store(self.backend, self.work)
-        follow = run_followups([lambda: st], self.B)
-        return {i: outcome(r) for i, r in res.items()}, fin, follow
+            follow.append(run_followups([lambda: st], self.B, variant=variant))
+        return {i: outcome(r) for i, r in res.items()}, fin, tuple(follow)
 
     def sequential_spec(self):
         n = len(self.ops)
@@ -251,10 +260,12 @@ def judge(sc, s, raw, res, cfg, sched_descr):
             matching.append(order)
     if ok and getattr(sc, "last_fac", None):
         sc.nfollow = getattr(sc, "nfollow", 0) + 1
-        got = run_followups(sc.last_fac, sc.B, shift=sc.nfollow % 2)
+        variant = (sc.nfollow // 2) % len(FOLLOW_ORDERS)
+        got = run_followups(sc.last_fac, sc.B, shift=sc.nfollow % 2, variant=variant)
         sc.last_fac = None
         res.count("followups_judged")
-        exp = sorted({follow_of[o] for o in matching})
+        res.count("followups_in_order:%d" % variant)
+        exp = sorted({follow_of[o][variant] for o in matching})
         for g in got:
             res.count("followup_outcome:" + g)
         if got not in exp:
